@@ -55,12 +55,14 @@ def _agg_multi():
 OPS = OrderedDict()
 
 
-def O(name, arity, fn, presort=None, kind='view', lexical=False):
-    OPS[name] = {'arity': arity, 'fn': fn, 'presort': presort, 'kind': kind, 'lexical': lexical}
+def O(name, arity, fn, presort=None, kind='view', lexical=False, pad=None):
+    OPS[name] = {'arity': arity, 'fn': fn, 'presort': presort, 'kind': kind, 'lexical': lexical, 'pad': pad}
 
 
 for _j in ('join', 'leftjoin', 'rightjoin', 'outerjoin', 'antijoin', 'lookupjoin'):
     O(_j, 2, (lambda f: lambda s, **kw: f(s[0], s[1], key='k', **kw))(getattr(petl, _j)), presort=['k', 'k'])
+# the key is the last field and some left rows stop before it: lookupjoin squares rows up with `missing` first, so the filler is their key
+O('lookupjoin-lastkey-missing', 2, lambda s, **kw: petl.lookupjoin(s[0], s[1], key='k', missing='a', **kw), presort=['k', 'k'], pad='a')
 O('join-lrkey', 2, lambda s, **kw: petl.join(s[0], s[1], lkey='k', rkey=0, **kw), presort=['k', 'k'])
 O('complement', 2, lambda s, **kw: petl.complement(s[0], s[1], **kw), presort=[None, None], lexical=True)
 O('complement-strict', 2, lambda s, **kw: petl.complement(s[0], s[1], strict=True, **kw), presort=[None, None], lexical=True)
@@ -127,6 +129,11 @@ def _tables(rng, op):
         return [a, b]
     if op.startswith('merge'):
         return [t(['k', 'v', 'id'], rng.randint(0, 4), 'a'), t(['k', 'v', 'id'], rng.randint(0, 4), 'b')]
+    if spec['pad'] is not None:
+        kp = [spec['pad']] + [k for k in kp if k != spec['pad']][:3]
+        left = [['id', 'v', 'k']] + [['L%d' % i, rng.choice(vp), rng.choice(kp)][:rng.choice([3, 3, 2, 1])] for i in range(rng.randint(0, 6))]
+        right = [['k', 'w']] + [[rng.choice(kp), 'R%d' % i][:rng.choice([2, 2, 2, 1])] for i in range(rng.randint(0, 4))]
+        return [left, right]
     left = t(['k', 'v', 'id'], rng.randint(0, 5), 'L')
     right = [['k', 'w']] + [[rng.choice(kp), 'R%d' % i] for i in range(rng.randint(0, 4))]
     if op != 'antijoin' and rng.random() < 0.3:
@@ -246,6 +253,11 @@ def judge(case, ctx):
         for t, key in zip(tables, spec['presort']):
             idx = gen.resolve_key(t[0], key) if key is not None else list(range(len(t[0])))
             rev = False
+            if spec['pad'] is not None:
+                # the rows stay short: only their sort key is the one they have once squared up
+                w_ = len(t[0])
+                srt.append([t[0]] + sorted(t[1:], key=lambda r: util.model_key(gen.keyval(list(r) + [spec['pad']] * (w_ - len(r)), idx))))
+                continue
             srt.append([t[0]] + sorted(t[1:], key=lambda r: util.model_key(gen.keyval(r, idx)), reverse=rev))
         ctx.seen('presorted')
         # the reference for presorted input is the default call on that same (sorted) input
@@ -401,6 +413,9 @@ def _judge_history(case, ctx, spec):
             width = len(t[0])
             if st[0] == 'append':
                 row = [st[2]] + ['e'] * (width - 1)
+                if t[0][0] != 'k' and 'k' in t[0] and not OPS[op]['lexical']:
+                    row = ['e'] * width
+                    row[t[0].index('k')] = st[2]
                 if OPS[op]['lexical'] and width == 2 and t[0][0] != 'k':
                     row = ['e', st[2]]
                 t.append(row)
@@ -415,6 +430,7 @@ def _judge_history(case, ctx, spec):
                     # replace the row object (a cache may legitimately hold references to the old row objects)
                     pos = 1 + st[2] % (len(t) - 1)
                     r = list(t[pos])
+                    r += ['e'] * (width - len(r))
                     r[t[0].index('k')] = st[3]
                     t[pos] = r
             if completed is not None:
